@@ -18,7 +18,7 @@ MIN_TICK, MAX_TICK = -887272, 887272
 MIN_SQRT = 4295128739
 MAX_SQRT = 1461446703485210103287273052203988822378723970342
 TICKS_FULL = [MIN_TICK, MIN_TICK + 1, -887220, -200040, -60, -1, 0, 1, 60, 200040, 887220, MAX_TICK - 1, MAX_TICK]
-TICKS_QUICK = [MIN_TICK, -200040, -1, 0, 60, MAX_TICK]
+TICKS_QUICK = [MIN_TICK, -887220, -200040, -1, 0, 60, MAX_TICK]  # (MIN_TICK, -887220): a narrow range at the very low end, where liquidity per token is astronomically large
 DECIMALS = [6, 8, 18]
 Q96 = 1 << 96
 MULTS = [1, 2, 7, 10**6]
